@@ -474,7 +474,7 @@ func deepTrees(r *SM64, n int) []*Tree {
 // byteSweep: every byte value inside / next to an identifier.  refOnly: the templates whose validity is known
 // without a tokeniser (a reference name is valid iff every byte of it is an id character)
 var sweepRefTemplates = []string{"LicenseRef-a%sc", "DocumentRef-a%sc:LicenseRef-x", "DocumentRef-d:LicenseRef-a%sc", "MIT AND LicenseRef-q%sz OR ISC"}
-var sweepOtherTemplates = []string{"LicenseRef-%s", "MIT AND LicenseRef-q%s", "DocumentRef-%s:LicenseRef-x", "MIT%s", "%sMIT", "MIT%sISC", "MIT %s ISC", "MIT WITH Bison-exception-2.2%s", "GPL-2.0%sonly", "(MIT%s)"}
+var sweepOtherTemplates = []string{"MIT%sor-later", "Apache-2.0%sor-later", "MIT%sonly", "MIT-or-late%s", "MIT-onl%s", "GPL-2.0%sor-later", "GPL-2.0-or-later%s", "MIT WITH Bison-exception-2.2%sonly", "LicenseRef-%s", "MIT AND LicenseRef-q%s", "DocumentRef-%s:LicenseRef-x", "MIT%s", "%sMIT", "MIT%sISC", "MIT %s ISC", "MIT WITH Bison-exception-2.2%s", "GPL-2.0%sonly", "(MIT%s)"}
 
 func isIDByte(b byte) bool {
 	return b >= 'a' && b <= 'z' || b >= 'A' && b <= 'Z' || b >= '0' && b <= '9' || b == '-' || b == '.'
